@@ -38,13 +38,19 @@ for d in sorted(glob.glob(os.path.join(ROOT, "seeded", "C*-m*"))):
         "detected_by": {t: {"command": f"VERIF_REPO=<scratch copy with patch.diff applied> ./vcheck {prop} {t}", **v} for t, v in det.items()},
         "files": ["patch.diff", "demo.py", "notes.md"],
     }
+    obs = os.path.join(d, ".obsolete.json")
+    if os.path.exists(obs):
+        meta["obsolete"] = json.load(open(obs))
     with open(os.path.join(d, "meta.json"), "w") as f:
         json.dump(meta, f, indent=1)
     q = det.get("quick", {})
     clause = (q.get("failed_clauses") or ["-"])[0]
     clause = re.sub(r"^failed clause:\s*", "", clause)
     clause = clause.split("  signature:")[0][:70]
-    rows.append(f"| {sid} | {title[:70]} | {'caught (exit 1)' if q.get('exit') == 1 else ('MISSED' if q.get('exit') == 0 else 'n/a')} | {clause} |")
+    verdict = 'caught (exit 1)' if q.get('exit') == 1 else ('MISSED' if q.get('exit') == 0 else 'n/a')
+    if os.path.exists(obs):
+        verdict = "obsolete (no longer breaks the property / no longer applies)"
+    rows.append(f"| {sid} | {title[:70]} | {verdict} | {clause} |")
 print("| id | change | quick check of its property | first failing clause |")
 print("|----|--------|------------------------------|----------------------|")
 print("\n".join(rows))
